@@ -7,6 +7,7 @@
 package c14
 
 import (
+	"context"
 	"fmt"
 	"os"
 	"path/filepath"
@@ -38,6 +39,7 @@ type popCase struct {
 	Entries []entry
 	Sibling bool // also a "<name>.wf" appender in the same directory
 	Second  bool // run a second scan of the same appender after more expired files appeared
+	Outage  bool // an earlier scan of the same appender found the directory gone (listing failed)
 }
 
 func (c popCase) String() string {
@@ -49,7 +51,7 @@ func (c popCase) String() string {
 		}
 		p = append(p, fmt.Sprintf("%s%s@%dmin", e.Name, d, e.AgeMin))
 	}
-	return fmt.Sprintf("name=%q maxAge=%dh sibling=%v second=%v entries=[%s]", c.Name, c.MaxAge, c.Sibling, c.Second, strings.Join(p, " "))
+	return fmt.Sprintf("name=%q maxAge=%dh sibling=%v second=%v outage=%v entries=[%s]", c.Name, c.MaxAge, c.Sibling, c.Second, c.Outage, strings.Join(p, " "))
 }
 
 var digits14 = rapid.OneOf(
@@ -64,6 +66,7 @@ func genCase(t *rapid.T) popCase {
 		MaxAge:  rapid.SampledFrom([]int{1, 2, 24, 168, 720, 3, 48}).Draw(t, "maxAge"),
 		Sibling: rapid.Bool().Draw(t, "sibling"),
 		Second:  rapid.Bool().Draw(t, "secondScan"),
+		Outage:  rapid.IntRange(0, 3).Draw(t, "outageScan") == 0,
 	}
 	if rapid.Bool().Draw(t, "anyAge") {
 		c.MaxAge = rapid.IntRange(1, 720).Draw(t, "maxAgeAny")
@@ -199,6 +202,21 @@ func runCase(c popCase, dir string) error {
 		}
 		return nil
 	}
+	if c.Outage {
+		// a scan while the directory is away cannot list it and deletes nothing; it must not change
+		// what the next scan does
+		away := dir + ".away"
+		if err := os.Rename(dir, away); err != nil {
+			return fmt.Errorf("VERIF-INCONCLUSIVE: %v", err)
+		}
+		p := vk.Catch(func() { log.VerifClearExpiredFiles(a) })
+		if err := os.Rename(away, dir); err != nil {
+			return fmt.Errorf("VERIF-INCONCLUSIVE: %v", err)
+		}
+		if p != nil {
+			return fmt.Errorf("a cleanup while the log directory was away panicked: %v", p)
+		}
+	}
 	log.VerifClearExpiredFiles(a)
 	if err := check("appender "+c.Name, c.Name); err != nil {
 		return err
@@ -281,6 +299,12 @@ func TestC14_Populations(t *testing.T) {
 	})
 }
 
+var tagRL = log.RegisterTag("_c14_rl")
+
+func init() {
+	log.RegisterTimeRotation("1s", log.TimeRotation{Interval: time.Second})
+}
+
 // TestC14_RealRotation drives the un-hooked path: a real 1 s rotation starts the asynchronous
 // cleanup; the harness polls until the expected victims are gone and then requires that nothing
 // else disappeared.
@@ -348,6 +372,55 @@ func TestC14_RealRotation(t *testing.T) {
 				t.Fatalf("%v", err)
 			}
 			t.Fatalf("VERIF-VIOLATION C14: %v", err)
+		}
+	}
+	// the same through a RollingFile *logger* built by Refresh (its appenders are internal): with
+	// separate=false the logger owns name.<ts> only - name.wf.<ts> files in the directory belong to
+	// somebody else; with separate=true they are its second appender's own files (either way is fine)
+	for i, separate := range []bool{false, true} {
+		dir := filepath.Join(base, fmt.Sprintf("lg%d", i))
+		_ = os.MkdirAll(dir, 0o755)
+		log.Destroy()
+		if err := log.Refresh(map[string]string{
+			"appender.unused.type": "Discard",
+			"logger.rl.type":     "RollingFile", "logger.rl.tags": "_c14_rl", "logger.rl.fileDir": dir, "logger.rl.fileName": "app.log",
+			"logger.rl.rotation": "1s", "logger.rl.maxAge": "1", "logger.rl.separate": strconv.FormatBool(separate), "logger.rl.async": "false",
+		}); err != nil {
+			t.Fatalf("VERIF-INCONCLUSIVE C14: %v", err)
+		}
+		old := time.Now().Add(-3 * time.Hour)
+		victims := []string{"app.log.20200101000000", "app.log.20210203040506"}
+		keepers := []string{"app.log.audit.20200101000000", "app.log.bak", "app.log.1.gz", "app.log.2020010100000", "other.20200101000000", "app.log.20200101000000.gz"}
+		wf := []string{"app.log.wf.20200101000000", "app.log.wf.20210203040506"}
+		for _, f := range append(append(append([]string{}, victims...), keepers...), wf...) {
+			p := filepath.Join(dir, f)
+			_ = os.WriteFile(p, []byte("x"), 0o644)
+			_ = os.Chtimes(p, old, old)
+		}
+		deadline := time.Now().Add(20 * time.Second)
+		gone := false
+		for n := 0; time.Now().Before(deadline) && !gone; n++ {
+			log.Info(context.Background(), tagRL, log.Int("id", n))
+			time.Sleep(50 * time.Millisecond)
+			l := list(dir)
+			gone = !l[victims[0]] && !l[victims[1]]
+		}
+		log.Destroy()
+		time.Sleep(100 * time.Millisecond)
+		l := list(dir)
+		vk.Eval()
+		vk.Class("real-rotation-run:rolling-file-logger")
+		vk.NonTrivial(fmt.Sprintf("real-rotation-logger-%v", separate))
+		if !gone {
+			t.Fatalf("VERIF-VIOLATION C14: RollingFile logger (separate=%v): after real rotations over 20 s the expired own files %v were not removed", separate, victims)
+		}
+		if !separate {
+			keepers = append(keepers, wf...)
+		}
+		for _, k := range keepers {
+			if !l[k] {
+				t.Fatalf("VERIF-VIOLATION C14: RollingFile logger (separate=%v): the cleanup triggered by a real rotation deleted %q, which is not one of this logger's own expired files", separate, k)
+			}
 		}
 	}
 	names := []string{}
